@@ -962,3 +962,54 @@ func relToLast(s string) (int, bool) {
 	}
 	return 0, false
 }
+
+// --- an inline note or comment may be the last thing in the text -----------------------------------
+
+func init() {
+	for _, name := range []string{"schema", "enum"} {
+		name := name
+		register(&Rule{ID: "SX-eofnote-" + name, Min: 1, Run: func(c *load.Ctx, r *report.RuleResult) { runSXEofNote(c, r, name) },
+			Doc: "scanner " + name + ": the end of the text ends an inline note or comment just as a line break does: in every reachable abstract state whose step function is an inline comment / inline annotation state and whose lexeme stack holds nothing but the open annotation itself (the value before it is complete), the end of input is accepted — a text whose last line is `… // note` without a final line break means the same as with one"})
+	}
+}
+
+func runSXEofNote(c *load.Ctx, r *report.RuleResult, name string) {
+	sp := scannerSpecs[name]
+	g := exploreScanner(c, name, sp)
+	if g.err != nil {
+		r.Unk("anchor|"+sp.rel, "", g.err.Error())
+		return
+	}
+	count := map[string]int{}
+	bad := map[string]bool{}
+	for n, res := range g.eof {
+		full := implStepName(g.m, n.st)
+		step := baseStepName(full)
+		if !isInlineStep(step) || isClosureStep(full) || step == "stateAnyCommentStart" {
+			continue
+		}
+		onlyNote := true
+		for _, t := range g.m.stackTypes(n.st) {
+			if !strings.HasPrefix(t, "InlineAnnotation") {
+				onlyNote = false
+			}
+		}
+		if !onlyNote || res == nil {
+			continue
+		}
+		key := "eofnote|impl=" + step
+		count[key]++
+		if res.Kind != "end" && !bad[key] {
+			bad[key] = true
+			r.Bad(key, c.Pos(g.m.next.Pos()), fmt.Sprintf("the text %q ends inside an inline note after a complete value and is not accepted (%s %s %s)", n.path, res.Kind, res.Code, res.Detail))
+		}
+	}
+	for _, k := range sortedKeys(count) {
+		if !bad[k] {
+			r.OK(k, "", fmt.Sprintf("%d state(s): the end of input ends the note", count[k]))
+		}
+	}
+	if len(count) == 0 {
+		r.Unk("anchor|inline note states", "", "no reachable inline-note state after a complete value")
+	}
+}
